@@ -114,6 +114,8 @@ class Run:
         self.interest_seen: Dict[str, Tuple[Any, D, Any]] = {}
         self.anomalies: List[str] = []
         self.before_clock: Dict[Any, Snap] = {}
+        self.shared_lending = None      # a MarginLoans object already used by a previous exchange (re-use scenario)
+        self.ls = None
         self.listing_stride = 6        # full listing comparison on every n-th snapshot once there are many orders
         self.offgrid_loans = False     # a loan amount off the precision grid was requested (C08's premise is void)
         self.symbols: Dict[str, int] = sc["symbols"]
@@ -168,10 +170,14 @@ class Run:
                     interest_symbol=c["interest_symbol"], interest_percentage=D(c["pct"]),
                     interest_period=datetime.timedelta(seconds=c["period_s"]), min_interest=D(c["min"]),
                     margin_requirement=D(c["req"]))
-            ls = lending.MarginLoans(self.lend["quote"],
-                                     default_conditions=mk(self.lend["default"]) if self.lend["default"] else None)
-            for s, c in self.lend["per_symbol"].items():
-                ls.set_conditions(s, mk(c))
+            self._mk_cond = mk
+            ls = self.shared_lending
+            if ls is None:
+                ls = lending.MarginLoans(self.lend["quote"],
+                                         default_conditions=mk(self.lend["default"]) if self.lend["default"] else None)
+                for s, c in self.lend["per_symbol"].items():
+                    ls.set_conditions(s, mk(c))
+            self.ls = ls
             kw["lending_strategy"] = ls
         self.e = exchange.Exchange(self.d, dict(self.init), **kw)
         for s, p in self.symbols.items():
@@ -266,6 +272,14 @@ class Run:
                 lid = self._pick_loan(act)
                 if lid is not None:
                     await self.call("repay_loan", lambda: e.repay_loan(lid), {"id": lid})
+            elif op == "set_cond":
+                # the lending conditions of a symbol are changed while the backtest runs (public MarginLoans API)
+                import copy as _copy
+                if self.lend is not None:
+                    self.lend = _copy.deepcopy(self.lend)
+                    self.lend["per_symbol"][act["symbol"]] = act["cond"]
+                    self.ls.set_conditions(act["symbol"], self._mk_cond(act["cond"]))
+                    self.stats["conditions_changed"] += 1
             elif op == "query":
                 await self.listing_check(await self.snapshot(("query",)), force=True)
         except Exception as ex:  # API errors are expected outcomes; anything else is recorded as an anomaly
@@ -494,7 +508,8 @@ class Run:
         for i, lo in after.loans.items():
             if i not in before.loans:
                 self.loan_meta[i] = {"symbol": lo.borrowed_symbol, "amount": lo.borrowed_amount,
-                                     "created": before.clock, "via": "rejected_" + name}
+                                     "created": before.clock, "via": "rejected_" + name,
+                                     "cond": self.cond(lo.borrowed_symbol)}
                 self.stats["loans_rolled_back"] += 1
                 self.sig.add(("rollback",))
                 if lo.is_open or any(lo.paid_interest.values()):
@@ -520,7 +535,7 @@ class Run:
         for i in new_loans:
             lo = after.loans[i]
             self.loan_meta[i] = {"symbol": lo.borrowed_symbol, "amount": lo.borrowed_amount, "created": clock,
-                                 "via": name}
+                                 "via": name, "cond": self.cond(lo.borrowed_symbol)}
         if name == "create_order":
             oid = result.id
             pname = args["pair"]
@@ -639,6 +654,17 @@ class Run:
         eu = self.equity_and_used(after)
         if eu is None:
             self.stats["c10_unpriced"] += 1
+            # a debt that cannot be valued cannot be shown to meet its requirement: granting it is not covered by
+            # "only granted if, valued at the last prices, ..."
+            for s, (a, h, b) in after.bal.items():
+                c = self.cond(s)
+                if b > 0 and c is not None and D(c["req"]) != 0 and self.price_in_quote(s, after) is None \
+                        and any(self.loan_meta[i]["symbol"] == s for i in after.loans if i in self.loan_meta
+                                and after.loans[i].is_open and self.loan_meta[i].get("via") == name
+                                and self.loan_meta[i]["created"] == after.clock):
+                    self.v("C10", "loan_granted_without_price",
+                           f"{name}({_fmt(args)}) granted although {s} (requirement {c['req']}) has no price yet: the "
+                           f"requirement cannot have been checked")
             return
         eq, used = eu
         self.stats["c10_grants_checked"] += 1
@@ -969,7 +995,7 @@ class Run:
             if meta is None:
                 # created inside this very call (auto-borrow); registered by on_accepted/on_rejected right after
                 continue
-            c = self.cond(lo.borrowed_symbol)
+            c = meta.get("cond") or self.cond(lo.borrowed_symbol)
             if c is None:
                 continue
             isym = c["interest_symbol"]
@@ -1403,9 +1429,10 @@ def _rejection_origin(name: str, ex) -> str:
     return "other:" + t
 
 
-def run_scenario(sc: Dict[str, Any], res: ShardResult, listing_stride: int = 6) -> Run:
+def run_scenario(sc: Dict[str, Any], res: ShardResult, listing_stride: int = 6, shared_lending=None) -> Run:
     run = Run(sc, res)
     run.listing_stride = listing_stride
+    run.shared_lending = shared_lending
     loop = asyncio.new_event_loop()
     try:
         asyncio.set_event_loop(loop)
